@@ -3,6 +3,7 @@ package mxj
 func init() {
 	vHarnesses["H_C09_enum"] = H_C09_enum
 	vHarnesses["H_C09_enum_deep"] = H_C09_enum_deep
+	vHarnesses["H_C09_enum_fan"] = H_C09_enum_fan
 	vHarnesses["H_C09_resolve"] = H_C09_resolve
 	vHarnesses["H_C09_resolve_deep"] = H_C09_resolve_deep
 	vHarnesses["H_C09_resolve_long"] = H_C09_resolve_long
@@ -150,6 +151,11 @@ func H_C09_enum() {
 	d := vP("depth", 2, 3)
 	kinds := []string{"mls", "mlsn"}[vP("nil", 0, 1)]
 	vC09enum(vSpec{Depth: d, Width: vP("width", 2, 2), Kinds: kinds, KeyAlpha: "a-@", KeyMin: 0, KeyMax: 1, StrAlpha: "x", StrMax: 0})
+}
+
+// lists that mix scalars and maps (lists of two members below maps of one entry)
+func H_C09_enum_fan() {
+	vC09enum(vSpec{Depth: vP("depth", 3, 4), Width: vP("width", 2, 2), MapWidth: 1, Kinds: "mls", KeyAlpha: "a-", KeyMin: 1, KeyMax: 1, StrAlpha: "x", StrMax: 0})
 }
 
 func H_C09_enum_deep() {
